@@ -919,7 +919,8 @@ KNOWN_CLASSES = [
     # classKeywordImplicitAny 3858618, sliceLiteralBounds 97cec89, overloadDetailEllipsis 633bfb7, suggestedTypeOfMetaclass fcd36f7, matchValueNotLiteral 9d3b0d2,
     # constrainedTypeVarBoolability 67ee234, overloadStarArgs 5bac5ce, versionInfoCompareRaises 8c71858, protocolCacheKeyUnhashable 9d530d5,
     # moduleAnnotationUncaught dd2d4d8, annotatedEmptyArgs 98aa7df, callableParamSpecNotLast c190182, unsupportedAnnotNode 9c1e869, boundsDedupUnhashable 766092b,
-    # recursiveTypeVarConstraint 69dd78e, pep695AliasUnhashableArgs 6363fee.
+    # recursiveTypeVarConstraint 69dd78e, pep695AliasUnhashableArgs 6363fee, formatFieldUnicodeDigit 3ae974f,
+    # hugeIntRepr 891931a, hugeRangeLen fe3a397, starArgsSelfNodeMissing 4c8e2b0, typeAliasBoolability 6baa009.
     # (class, kinds, signature test, syntactic predicate on (tree, lineno, col, detail, ctx))
     ("userCodeRaises", ("internal_error", "raises"), lambda s, d: _user_frames(d), lambda *a: True),
     ("metaclassAttrRecursion", ("internal_error",), lambda s, d: s[0] == "RecursionError" and "has_attribute" in s[1],
@@ -932,25 +933,17 @@ KNOWN_CLASSES = [
     ("inlineParamSpecRecursion", ("internal_error",), lambda s, d: s[0] == "RecursionError" and "substitute_typevars" in s[1],
      lambda t, ln, col, d, c: any(isinstance(n, ast.Call) and (getattr(n.func, "id", None) == "ParamSpec" or getattr(n.func, "attr", None) == "ParamSpec")
                                   for a in annotation_exprs([t]) for n in ast.walk(a))),
-    ("formatFieldUnicodeDigit", ("internal_error",), lambda s, d: s == ("ValueError", "format_strings.py::_parse_replacement_field"),
-     lambda t, ln, col, d, c: any(isinstance(n, ast.Constant) and isinstance(n.value, str) and "{" in n.value and any(ch.isdigit() and not ch.isascii() for ch in n.value)
-                                  for n in ast.walk(t))),
-    ("hugeIntRepr", ("internal_error",), lambda s, d: s[0] == "ValueError" and "Exceeds the limit" in d.get("tail", "") and "integer string conversion" in d.get("tail", ""),
-     lambda t, ln, col, d, c: True),
-    ("hugeRangeLen", ("internal_error",), lambda s, d: s == ("OverflowError", "value.py::concrete_values_from_iterable"),
-     lambda t, ln, col, d, c: any(isinstance(n, ast.Call) and getattr(n.func, "id", None) == "range" for n in ast.walk(t))),
     ("deepLiteralRecursion", ("internal_error",), lambda s, d: s[0] == "RecursionError" and s[1] == "cycle:" and "while getting the repr" in d.get("description", "") + d.get("tail", "") or
      (s[0] == "RecursionError" and s[1] == "cycle:"),
      lambda t, ln, col, d, c: any(isinstance(n, (ast.For, ast.While)) and any(isinstance(a, ast.Assign) and isinstance(a.targets[0], ast.Name) and
                                                                               any(isinstance(x, ast.Name) and x.id == a.targets[0].id for x in ast.walk(a.value))
                                                                               for a in ast.walk(n)) for n in t.body)),
-    ("typeAliasBoolability", ("internal_error",), lambda s, d: s == ("AssertionError", "boolability.py::_get_boolability_no_mvv") and "TypeAliasValue" in d.get("tail", ""),
-     lambda t, ln, col, d, c: any(isinstance(n, ast.TypeAlias) for n in ast.walk(t))),
+    # 891931a repaired KnownValue.__str__ only; the other repr-of-a-known-value sites (MultiValuedValue.__str__, stacked_scopes
+    # CompositeVariable.__str__, the f'{key.val!r}' messages of implementation.py) still raise: same class until they are repaired
+    ("hugeIntRepr", ("internal_error",), lambda s, d: s[0] == "ValueError" and "Exceeds the limit" in d.get("tail", "") and "integer string conversion" in d.get("tail", ""),
+     lambda t, ln, col, d, c: True),
     ("newTypeOfNonClass", ("internal_error",), lambda s, d: s == ("AttributeError", "typeshed.py::_get_info_for_name"), _p_newtype_nonclass),
     ("stringAnnotationPosition", ("bad-col", "bad-line"), lambda s, d: True, _p_string_position),
-    ("starArgsSelfNodeMissing", ("bad-line",), lambda s, d: d.get("lineno") is None,
-     lambda t, ln, col, d, c: any(isinstance(n, ast.Call) and isinstance(n.func, ast.Attribute) and n.func.attr.startswith("__") and any(isinstance(a, ast.Starred) for a in n.args)
-                                  for n in ast.walk(t))),
     ("hugeConstantPower", ("timeout",), lambda s, d: True, _p_huge_power),
 ]
 
